@@ -254,7 +254,19 @@ def structure_items(repo):
                       mode="table", func=fs.qualname, detail="a scope's sline is the line number it is constructed with"))
     fw = repo.func(f"{LS}.serve_workspace_symbol")
     src = ast.unparse(fw.node)
-    ok = ("return sorted(matching_symbols, key=lambda k: k['name'])" in src
+    def sorted_by_name(fn):
+        # `return sorted(matching_symbols, key=lambda k: KEY)` with KEY = k['name'] or a tuple that starts with it
+        for n in ast.walk(fn):
+            if (isinstance(n, ast.Return) and isinstance(n.value, ast.Call) and ast.unparse(n.value.func) == "sorted"
+                    and n.value.args and ast.unparse(n.value.args[0]) == "matching_symbols"):
+                key = next((kw.value for kw in n.value.keywords if kw.arg == "key"), None)
+                rev = next((kw.value for kw in n.value.keywords if kw.arg == "reverse"), None)
+                if isinstance(key, ast.Lambda) and len(key.args.args) == 1 and rev is None:
+                    a = key.args.args[0].arg
+                    body = key.body.elts[0] if isinstance(key.body, ast.Tuple) and key.body.elts else key.body
+                    return ast.unparse(body) == f"{a}['name']"
+        return False
+    ok = (sorted_by_name(fw.node)
           and "'start': {'line': candidate.sline - 1, 'character': 0}" in src
           and "'end': {'line': candidate.eline - 1, 'character': 0}" in src
           and "find_in_workspace(self.obj_tree, query)" in src and "query = request['params']['query'].lower()" in src)
